@@ -352,7 +352,9 @@ func runRings(sc *Scenario) (*core.Violation, uint64) {
 			oidx[o] = len(tab)
 			sidx[s] = len(tab)
 			tab = append(tab, rh{o, s})
-			o, s = o.Next(), s.Next()
+			if n > 1 { // a zero-value ring is left untouched: its first operation is the history's
+				o, s = o.Next(), s.Next()
+			}
 		}
 	}
 	var h uint64
@@ -374,32 +376,45 @@ func runRings(sc *Scenario) (*core.Violation, uint64) {
 			return &core.Violation{Signature: "ring:" + sig + ":" + op.K, Detail: fmt.Sprintf("after op %d %s (rings %v): ", i, op, sc.Rings) + fmt.Sprintf(format, a...)}
 		}
 		a, b := tab[op.A%len(tab)], tab[op.B%len(tab)]
+		var ro *lists.Ring[int]
+		var rs *ring.Ring
+		var lo, ls int
+		var do1, do2 []int
+		hasResult := true
+		var fo, fs func()
 		switch op.K {
 		case "next":
-			if !same(a.o.Next(), a.s.Next()) {
-				return fail("result", "Next differs"), h
-			}
+			fo, fs = func() { ro = a.o.Next() }, func() { rs = a.s.Next() }
 		case "prev":
-			if !same(a.o.Prev(), a.s.Prev()) {
-				return fail("result", "Prev differs"), h
-			}
+			fo, fs = func() { ro = a.o.Prev() }, func() { rs = a.s.Prev() }
 		case "move":
-			if !same(a.o.Move(op.N), a.s.Move(op.N)) {
-				return fail("result", "Move(%d) differs", op.N), h
-			}
+			fo, fs = func() { ro = a.o.Move(op.N) }, func() { rs = a.s.Move(op.N) }
 		case "link":
-			if !same(a.o.Link(b.o), a.s.Link(b.s)) {
-				return fail("result", "Link returned a different element"), h
-			}
+			fo, fs = func() { ro = a.o.Link(b.o) }, func() { rs = a.s.Link(b.s) }
 		case "unlink":
-			if !same(a.o.Unlink(op.N), a.s.Unlink(op.N)) {
-				return fail("result", "Unlink(%d) returned a different element", op.N), h
-			}
+			fo, fs = func() { ro = a.o.Unlink(op.N) }, func() { rs = a.s.Unlink(op.N) }
 		case "len":
-			if a.o.Len() != a.s.Len() {
-				return fail("len", "Len()=%d, container/ring %d", a.o.Len(), a.s.Len()), h
-			}
-		case "do":
+			hasResult = false
+			fo, fs = func() { lo = a.o.Len() }, func() { ls = a.s.Len() }
+		default: // do: possibly the very first operation on a zero-value ring
+			hasResult = false
+			fo, fs = func() { a.o.Do(func(v int) { do1 = append(do1, v) }) }, func() { a.s.Do(func(v any) { do2 = append(do2, sval(v)) }) }
+		}
+		po, ps := catch(fo), catch(fs)
+		if po != ps {
+			return fail("panic", "lists panicked=%v, container/ring panicked=%v", po, ps), h
+		}
+		if po {
+			return nil, h
+		}
+		if hasResult && !same(ro, rs) {
+			return fail("result", "%s returned a different element than container/ring", op.K), h
+		}
+		if lo != ls {
+			return fail("len", "Len()=%d, container/ring %d", lo, ls), h
+		}
+		if fmt.Sprint(do1) != fmt.Sprint(do2) {
+			return fail("do", "Do visits %v, container/ring %v", do1, do2), h
 		}
 		for hi, e := range tab {
 			if !same(e.o.Next(), e.s.Next()) || !same(e.o.Prev(), e.s.Prev()) {
